@@ -127,7 +127,7 @@ def create_train_for_each_client(grad_fn, client_optimizer):
       client_step_state['state'].interpolation_coefficients)
 
     interpolation_coefficients = jax.tree_util.tree_map(
-      partial(jnp.clip, a_min=0, a_max=1),
+      lambda x: jnp.clip(x, 0, 1),
       interpolation_coefficients)
 
     return {
